@@ -101,7 +101,18 @@ func (w *World) aliasMutations(roots []*ssa.Function, seed func(ssa.Value) bool)
 					case *ssa.Slice:
 						if tainted[x.X] {
 							mark(x)
-							if x.High != nil || short[x.X] {
+							// x[lo:hi:hi] has no room behind it: appending to it allocates, nothing is overwritten
+							full := false
+							if x.Max != nil && x.High != nil {
+								if x.Max == x.High {
+									full = true
+								} else if a, okA := intConst(x.Max); okA {
+									if b, okB := intConst(x.High); okB && a == b {
+										full = true
+									}
+								}
+							}
+							if (x.High != nil || short[x.X]) && !full {
 								markShort(x)
 							}
 						}
